@@ -296,8 +296,17 @@ func checkC10(c *Ctx) *orch.Outcome {
 		}
 	}
 	if !c.Thorough() && len(cases) > 700 {
-		rng.Shuffle(len(cases), func(i, j int) { cases[i], cases[j] = cases[j], cases[i] })
-		cases = cases[:700]
+		// BEGIN and COMMIT of every special block are always kept; the rest is sampled
+		var must, rest []c10Params
+		for _, cs := range cases {
+			if cs.Req == nil && cs.K2 == 0 && (strings.HasPrefix(cs.Stmt, "begin") || strings.HasPrefix(cs.Stmt, "commit")) {
+				must = append(must, cs)
+			} else {
+				rest = append(rest, cs)
+			}
+		}
+		rng.Shuffle(len(rest), func(i, j int) { rest[i], rest[j] = rest[j], rest[i] })
+		cases = append(must, rest[:700-len(must)]...)
 	}
 	// operating-system faults (strace fault injection on the database and journal files): disk full and I/O
 	// errors on writes, failing journal deletion
